@@ -399,6 +399,7 @@ func (w *World) ownSummaries() {
 	}
 	w.ownW = map[*FuncInfo]map[string]map[int]bool{}
 	w.retSum = map[*FuncInfo]ocls{}
+	w.retObj = map[*FuncInfo]psrc{}
 	var all []*FuncInfo
 	for _, fi := range w.Funcs {
 		all = append(all, fi)
@@ -410,8 +411,9 @@ func (w *World) ownSummaries() {
 		for _, fi := range all {
 			a := &ownAnalyzer{w: w, fi: fi, info: fi.Pkg.TypesInfo, obs: map[string]*OwnOb{}, cFields: map[string]bool{}, writes: map[string]string{},
 				writeBases: map[string]map[int]bool{}}
-			st := &ownState{cls: map[*types.Var]ocls{}, shallow: map[*types.Var]bool{}, moved: map[string]token.Pos{}, freshP: map[*types.Var]bool{}}
+			st := &ownState{cls: map[*types.Var]ocls{}, shallow: map[*types.Var]bool{}, moved: map[string]token.Pos{}, freshP: map[*types.Var]psrc{}}
 			sig := fi.Obj.Type().(*types.Signature)
+			initPtrParams(sig, st)
 			for i := 0; i < sig.Params().Len() && i < 64; i++ {
 				p := sig.Params().At(i)
 				if !isTreeType(p.Type()) {
@@ -435,6 +437,10 @@ func (w *World) ownSummaries() {
 					}
 				}
 			}
+			if old := w.retObj[fi]; joinP(old, a.retObj) != old {
+				w.retObj[fi] = joinP(old, a.retObj)
+				changed = true
+			}
 			if old := w.retSum[fi]; joinCls(old, a.retCls) != old {
 				w.retSum[fi] = joinCls(old, a.retCls)
 				changed = true
@@ -444,4 +450,14 @@ func (w *World) ownSummaries() {
 			break
 		}
 	}
+}
+
+// retObjSummary: which objects the pointer(-list) result of fi may refer to (fresh objects, its parameters, other).
+func (w *World) retObjSummary(fi *FuncInfo) psrc {
+	w.ownSummaries()
+	p := w.retObj[fi]
+	if !p.known {
+		return pFresh // no pointer result was ever returned non-nil (or analysis still optimistic)
+	}
+	return p
 }
